@@ -695,6 +695,11 @@ impl PropImpl for C15 {
     fn assumptions(&self) -> Vec<String> {
         vec!["empty lists and a licence without a short name are not 'valid values' of Uploaders-like fields / DEP-5 Files paragraphs".into(), "getters that unwrap a parse are exercised with valid stored values only".into()]
     }
+    fn expected_labels(&self) -> Vec<&'static str> {
+        let mut v: Vec<&'static str> = ROWS.iter().map(|r| r.label).collect();
+        v.extend(["prior:field-present", "prior:field-absent", "prior:comments-around-field", "prior:fields-before", "prior:fields-after", "prior:second-paragraph", "several-setter-calls", "clearing-setter", "getter:comma-lists", "getter:space-lists", "getter:checksum-triples", "getter:yes-no-flags", "getter:dep3", "getter:control-roles", "getter:changes", "getter:source-vcs", "getter:copyright"]);
+        v
+    }
     fn budget(&self, tier: Tier) -> Budget {
         Budget { cases_per_lane: if tier == Tier::Quick { 7500 } else { 40_000 }, tape_max: 300, cpu_s: 10 }
     }
